@@ -176,7 +176,9 @@ func predsOf(a *Anchor) []predEv {
 	case "sincospi":
 		return sinCosPreds(a.Fn, a.x)
 	case "igamma":
-		return igammaPreds(float64(a.H)/2, a.x, a.Fn == "GammaP" || a.Fn == "GammaQ", a.Fn == "GammaQ" || a.Fn == "GammaUpper")
+		isQ := a.Fn == "GammaQ" || a.Fn == "GammaQFar7" || a.Fn == "GammaQLow7"
+		isP := a.Fn == "GammaP" || a.Fn == "GammaPFar7"
+		return igammaPreds(float64(a.H)/2, a.x, isP || isQ, isQ || a.Fn == "GammaUpper")
 	case "bessel", "logbessel":
 		return besselPreds(float64(a.H)/2, a.x, a.Fam == "logbessel")
 	case "igamma-deriv":
